@@ -329,7 +329,9 @@ func (p *PHYPayload) DecryptJoinAcceptPayload(key AES128Key) error {
 	}
 
 	// append MIC to the ciphertext since it is encrypted too
-	ct := append(dp.Bytes, p.MIC[:]...)
+	ct := make([]byte, 0, len(dp.Bytes)+len(p.MIC))
+	ct = append(ct, dp.Bytes...)
+	ct = append(ct, p.MIC[:]...)
 
 	if len(ct)%16 != 0 {
 		return errors.New("lorawan: plaintext must be a multiple of 16 bytes")
@@ -859,10 +861,6 @@ func (p *PHYPayload) calculateDownlinkDataMIC(macVersion MACVersion, confFCnt ui
 // Note that EncryptFRMPayload is used for both encryption and decryption.
 func EncryptFRMPayload(key AES128Key, uplink bool, devAddr DevAddr, fCnt uint32, data []byte) ([]byte, error) {
 	pLen := len(data)
-	if pLen%16 != 0 {
-		// append with empty bytes so that len(data) is a multiple of 16
-		data = append(data, make([]byte, 16-(pLen%16))...)
-	}
 
 	block, err := aes.NewCipher(key[:])
 	if err != nil {
@@ -886,16 +884,17 @@ func EncryptFRMPayload(key AES128Key, uplink bool, devAddr DevAddr, fCnt uint32,
 	copy(a[6:10], b)
 	binary.LittleEndian.PutUint32(a[10:14], uint32(fCnt))
 
-	for i := 0; i < len(data)/16; i++ {
+	for i := 0; i*16 < pLen; i++ {
 		a[15] = byte(i + 1)
 		block.Encrypt(s, a)
 
-		for j := 0; j < len(s); j++ {
+		// the last block might be shorter than 16 bytes
+		for j := 0; j < len(s) && i*16+j < pLen; j++ {
 			data[i*16+j] = data[i*16+j] ^ s[j]
 		}
 	}
 
-	return data[0:pLen], nil
+	return data, nil
 }
 
 // EncryptFOpts encrypts the FOpts mac-commands.
